@@ -850,11 +850,11 @@ func newMemFile(node *node, name string, memfs *memFS, openMode int) *memFile {
 		name:     name,
 		openMode: openMode,
 	}
-	if openMode&os.O_APPEND != 0 {
-		m.offset = int64(len(node.data))
-	}
 	if openMode&os.O_TRUNC != 0 {
 		node.data = nil
+	}
+	if openMode&os.O_APPEND != 0 {
+		m.offset = int64(len(node.data))
 	}
 	return m
 }
@@ -949,6 +949,10 @@ func (f *memFile) Write(p []byte) (n int, err error) {
 	}
 	if f.openMode&os.O_APPEND != 0 && f.openMode&os.O_RDWR != 0 && f.openMode&os.O_WRONLY != 0 {
 		return 0, errors.New("file not opened in write mode")
+	}
+	if f.offset > int64(len(f.node.data)) {
+		// Writing past the end of the file fills the gap with zeros.
+		f.node.data = append(f.node.data, make([]byte, f.offset-int64(len(f.node.data)))...)
 	}
 	if f.offset+int64(len(p)) > int64(len(f.node.data)) {
 		f.node.data = append(f.node.data[:f.offset], p...)
